@@ -59,6 +59,14 @@ CLAIMS = {
         "delays mean zero, and resetting clears the carried-over background. Bounded native run compares with a same-seed reference background.",
    note="trusted: pyvc engine; ghost generator stream model; antenna count enumerated 1..3 (stated, not hidden); one noise + one signal source per stream",
    technique="contract-based deductive verification (Hoare triples with a two-state cache invariant, ghost stream positions); bounded native replay"),
+ 'C08': dict(cat='proof', ref='DESIGN.md 2/C08',
+   text="pfb_frontend's row loop carries an inductive invariant (row n = window-weighted sum of num_taps segments, real and complex input, "
+        "any taps/branches/length); channelize is proved equal to the FIR+DFT definition (DFT as its defining sum) for the one-shot call and, as a "
+        "Hoare triple from an arbitrary state satisfying the streaming invariant (cache = last taps*branches samples of everything fed), for any "
+        "admissible chunk: the spectra emitted are exactly those of the whole stream at positions pos..pos+rows (none missing or repeated) and the "
+        "invariant is re-established, which covers every chunk composition by induction. Linearity is a lemma over the definition.",
+   note="trusted: pyvc engine; np.fft = DFT definition with uninterpreted twiddles (FFT numerics only in the bounded native run against a direct O(B^2) evaluation); firwin; linearity of finite sums",
+   technique="contract-based deductive verification (loop invariant, two-state streaming invariant with ghost stream, Sum-term extensionality, modular call contract); bounded native replay"),
 }
 NA_REASON = "not yet built in this session (see DESIGN.md build order)"
 
